@@ -8,7 +8,14 @@ ID = "C14"
 LEAN_MODULES = ["Properties.C14"]
 THEOREMS = ["EngineModel.Properties.C14." + t for t in [
     "C14_shape_sound", "C14_no_fault_succeeds", "C14_all_writes", "C14_shape_complete", "C14_shape_exact",
-    "C14_raise_autocommit", "C14_usable", "C14_next_call", "C14_fault_on_begin", "C14_fault_on_commit"]]
+    "C14_raise_autocommit", "C14_usable", "C14_next_call", "C14_fault_on_begin", "C14_fault_on_commit",
+    "C14_fault_is_reported", "C14_all_or_nothing", "C14_skeleton_decides",
+    "C14_crates_v1_program", "C14_crates_v1_shape", "C14_crates_v1_skeleton", "C14_crates_v1_all_or_nothing",
+    "C14_crates_v1_self_throw",
+    "C14_crates_v2_program", "C14_crates_v2_shape", "C14_crates_v2_skeleton", "C14_crates_v2_all_or_nothing",
+    "C14_tracks_v2_program", "C14_tracks_v2_shape", "C14_tracks_v2_skeleton", "C14_tracks_v2_all_or_nothing",
+    "C14_set_bpm_unscoped_counterexample", "C14_remove_track_unscoped_counterexample",
+    "C14_tracks_v1_program", "C14_tracks_v1_shape", "C14_tracks_v1_all_or_nothing"]]
 ASSUMPTIONS = [
     "SqliteSemantics (modelled, Spec/Txn.lean): a statement applies completely or not at all; BEGIN fails inside a "
     "transaction, COMMIT fails outside one; ROLLBACK restores the committed database; an error may or may not roll "
@@ -44,6 +51,12 @@ MANIFEST = dict(
 TRUSTED_EXTRA = ["harness/djv_wrap.cpp (sqlite3_step wrapper: statement kinds, fault injection), "
                  "harness/djv_monitors.cpp (full observation), tools/monitors_gen.py (history generator)"]
 STATELESS = False
+SELF_TEST = {"recorded": "2026-09-29, scratch worktree of /repo, quick tier seeds 1-3 (not re-run by the check)", "seeded_changes": {
+    "seeded/C14-2 (independent: 2.x playlist_entity_table::clear removes entity by entity without a scope)": "missed before Hist.enrich, caught since: crate.clear_tracks k=1 partial update",
+    "seeded/sv-C14-drop-scope-v2-bpm": "caught: corpus witness v2_set_bpm + sweep",
+    "seeded/sv-C14-drop-scope-v1-path (commit before the last statement)": "caught: track.set_relative_path k=4 partial update",
+    "seeded/sv-C14-no-rollback-on-unwind": "caught: transaction left open, retry fails",
+    "seeded/sv-refactor-reorder-writes, seeded/sv-refactor-getter-in-scope (behaviour preserving)": "green"}}
 
 
 # ------------------------------------------------------------------ the operations under test
@@ -64,7 +77,7 @@ def op_instances(rng, h):
 
     inst("mkroot"); inst("mkroot_after"); inst("mksub"); inst("mksub_after"); inst("rename")
     inst("setparent", tries=12, want="crate.set_parent")
-    inst("setparent", tries=12, want="crate.set_parent(root)")
+    inst("setparent", to_root=True)
     inst("rmcrate"); inst("addtrack"); inst("rmtrackfrom"); inst("cleartracks")
     # re-adding a track that is already a member (1.x: DELETE + INSERT)
     if h.members:
@@ -72,11 +85,43 @@ def op_instances(rng, h):
         out.append(("crate.add_track(again)", "addtrack %s %s" % (c, t)))
     if h.crates and h.tracks:
         out.append(("crate.add_track(id)", "addtrackid %s %d" % (rng.choice(sorted(h.crates)), 1)))
+    # the multi-row cases: a crate holding >= 3 tracks, a track held by >= 3 crates, a subtree of crates holding
+    # tracks, a middle sibling (the prior states are enriched so that these exist: monitors_gen.Hist.enrich)
+    big = h.biggest_crate()
+    if big:
+        out.append(("crate.clear_tracks(3+ tracks)", "cleartracks %s" % big))
+        ms = h.members_of(big)
+        for nm, t in zip(("first", "middle", "last"), (ms[0], ms[len(ms) // 2], ms[-1])) if len(ms) >= 3 else []:
+            out.append(("crate.remove_track(%s of 3+)" % nm, "rmtrackfrom %s %s" % (big, t)))
+    t0 = h.most_shared_track()
+    if t0:
+        out.append(("remove_track(in 3+ crates)", "rmtrack %s" % t0))
+    sub = h.heaviest_subtree()
+    if sub:
+        # renaming / moving a crate that has sub-crates rewrites the paths of the whole subtree (1.x update_path)
+        out.append(("crate.set_name(with sub-crates)", "rename %s %s" % (sub, G.hx(h.fresh_name(h.crates[sub])))))
+        out.append(("remove_crate(subtree with tracks)", "rmcrate %s" % sub))
+    # a leaf crate that holds tracks, and a crate that is not the last among its siblings: looked for in the whole
+    # state (the enriched prior states contain both; which crate it is does not matter)
+    leaves = sorted(c for c in h.crates if not h.descendants(c) and h.members_of(c))
+    if leaves:
+        out.append(("remove_crate(leaf with tracks)", "rmcrate %s" % leaves[0]))
+    done = False
+    for par in [sub] + sorted(c for c in h.crates if c != sub) + [None]:
+        kids = sorted(h.siblings(par)) if (par is None or par in h.crates) else []
+        if len(kids) >= 2 and not done:
+            n0 = len(out)
+            inst("setparent", tries=12, want="crate.set_parent", c=kids[len(kids) // 2 - (len(kids) % 2 == 0)])
+            if len(out) > n0 and out[-1][0] == "crate.set_parent":
+                out[-1] = ("crate.set_parent(non-last sibling)", out[-1][1])
+                done = True
     inst("mktrack", rich=True); out[-1] = ("create_track(rich)", out[-1][1])
     inst("mktrack", rich=False); out[-1] = ("create_track(minimal)", out[-1][1])
     inst("update"); inst("rmtrack")
     for f in G.SETTER_FIELDS:
-        inst("set", field=f)
+        # on the track that has every optional field (so that e.g. set_waveform, which needs a sample count and
+        # rate, is applicable in every state); other tracks are covered by the random histories
+        inst("set", field=f, t=h.full_track if h.full_track in h.tracks else None)
     return out
 
 
@@ -131,11 +176,13 @@ def judge_fault(lines, outs):
         return r
     if not opres.startswith("throw"):
         r["problems"].append(("not-reported", "the failing statement was not reported: call returned '%s'" % opres[:60]))
-    if before["api"] != after["api"] or before["raw"] != after["raw"] or before["uuid"] != after["uuid"]:
-        what = "API observation differs" if before["api"] != after["api"] else "raw tables differ (API observation equal)"
+    if before["api"] != after["api"] or before["raw"] != after["raw"] or before["uuid"] != after["uuid"] \
+            or before.get("held") != after.get("held"):
+        what = "API observation differs" if (before["api"] != after["api"] or before.get("held") != after.get("held")) \
+            else "raw tables differ (API observation equal)"
         r["problems"].append(("partial-update", "%s after the failed call; tables changed: %s" % (
             what, ",".join(changed_tables(before, after)) or "-")))
-        r["api_changed"] = before["api"] != after["api"]
+        r["api_changed"] = before["api"] != after["api"] or before.get("held") != after.get("held")
     if auto != "ok 1":
         r["problems"].append(("transaction-left-open", "connection not in autocommit state after the failed call (%s)" % auto))
     if not retry.startswith("ok"):
@@ -161,7 +208,10 @@ def grep_raw_transactions():
     return hits
 
 
-EXPECTED_OPS = ["create_root_crate", "create_root_crate_after", "create_sub_crate", "create_sub_crate_after",
+MULTI_ROW_OPS = ["crate.set_name(with sub-crates)", "crate.clear_tracks(3+ tracks)", "crate.remove_track(first of 3+)", "crate.remove_track(middle of 3+)",
+                 "crate.remove_track(last of 3+)", "remove_track(in 3+ crates)", "remove_crate(subtree with tracks)",
+                 "remove_crate(leaf with tracks)", "crate.set_parent(non-last sibling)"]
+EXPECTED_OPS = MULTI_ROW_OPS + ["create_root_crate", "create_root_crate_after", "create_sub_crate", "create_sub_crate_after",
                 "crate.set_name", "crate.set_parent", "crate.set_parent(root)", "remove_crate", "crate.add_track",
                 "crate.add_track(again)", "crate.remove_track", "crate.clear_tracks", "create_track(rich)",
                 "create_track(minimal)", "track.update", "remove_track"] + ["track.set_" + f for f in G.SETTER_FIELDS]
@@ -192,12 +242,17 @@ def tie(ctx):
     rng = random.Random(ctx.seed * 1000003 + 14)
     thorough = ctx.tier == "thorough"
     schemas = G.pick_schemas(ctx.tier, ctx.seed)
-    n_states = 4 if thorough else 3
+    n_states = 4 if thorough else 2
     # ---- pass 1: record the shape of every operation in every state
     cases = []   # dict(schema, state, hist, opname, line)
+    state_shapes = []
+    newest = {G.SCHEMAS_V1[-1], G.SCHEMAS_V2[-1]}
     for sch in schemas:
-        for si in range(n_states):
-            h = G.gen_history(rng, sch, [6, 14, 24, 34][si % 4])
+        # quick: two prior states on the newest version of each generation (every operation, every fault position),
+        # one on the seeded other version; thorough: four on all 18
+        for si in range(n_states if (thorough or sch in newest) else 1):
+            h = G.gen_history(rng, sch, [6, 14, 24, 34][(si + ctx.seed) % 4], enrich=True)
+            state_shapes.append(dict(h.shape(), schema=sch, calls=len(h.lines)))
             for opname, line in op_instances(rng, h):
                 cases.append({"schema": sch, "state": si, "hist": list(h.lines), "op": opname, "line": line})
     outs1 = runner.run_harness([shape_script(c["schema"], c["hist"], c["line"]) for c in cases])
@@ -251,6 +306,32 @@ def tie(ctx):
                           for k in range(lean[s]["n"]))
             if allgood != lean[s]["atomic"]:
                 divergences.append({"input": s, "impl": "txn.exec sweep says %s" % allgood, "model": "txn.shape says %s" % lean[s]["atomic"]})
+    # ---- the concrete statement programs (Lean: Api/CratesV1Stmts, Db/V2CratesStmts, ...): the skeleton of every
+    # observed call (reads dropped, the writes of one scope counted once — C14_skeleton_decides) must be one the
+    # model's operation can have (C14_crates_v1_skeleton, C14_crates_v2_skeleton, ...)
+    sk_lines = ["c14.skel " + s for s in shape_set]
+    sk_out = runner.run_model_script(sk_lines) if sk_lines else []
+    skel = {s: (o[3:] if o.startswith("ok ") else None) for s, o in zip(shape_set, sk_out)}
+    op_keys = sorted({(G.family(c["schema"]), re.sub(r"\(.*\)$", "", c["op"])) for c in cases})
+    al_out = runner.run_model_script(["c14.allowed %s %s" % k for k in op_keys]) if op_keys else []
+    allowed = {k: (o[3:].split("|") if o.startswith("ok ") and o != "ok unmodelled" else None) for k, o in zip(op_keys, al_out)}
+    skel_hist, unmodelled = {}, set()
+    for c in cases:
+        if c["status"] != "ok":
+            continue
+        key = (G.family(c["schema"]), re.sub(r"\(.*\)$", "", c["op"]))
+        sk = skel.get(c["trace"])
+        skel_hist.setdefault("%s %s" % key, {})
+        skel_hist["%s %s" % key][sk] = skel_hist["%s %s" % key].get(sk, 0) + 1
+        if allowed.get(key) is None:
+            unmodelled.add("%s %s" % key)
+        elif sk not in allowed[key]:
+            divergences.append({"input": "%s | %s | %s" % (c["schema"], c["op"], c["line"][:60]),
+                                "impl": "observed statements %s, skeleton %s" % (c["trace"][:80], sk),
+                                "model": "the model's statement program has skeleton %s" % " or ".join(allowed[key])})
+    if unmodelled:
+        divergences.append({"input": "c14.allowed", "impl": "public mutating operations exercised: " + ", ".join(sorted(unmodelled))[:300],
+                            "model": "no concrete statement program for them (Lean driver answers 'unmodelled')"})
     # ---- fault-free run checks
     for c in cases:
         if c["status"] == "rejected":
@@ -320,6 +401,13 @@ def tie(ctx):
         if atomic and bad:
             divergences.append({"input": "%s | %s" % (c["schema"], c["line"][:80]), "impl": "partial update observed",
                                 "model": "atomicShape accepts " + c["trace"]})
+    writes_per_call = {}
+    for c in cases:
+        if c["status"] == "ok":
+            k = "%s %s" % (G.family(c["schema"]), c["op"])
+            n = sum(1 for x in kinds_of(c["trace"]) if x == "write")
+            writes_per_call.setdefault(k, {})
+            writes_per_call[k][str(n)] = writes_per_call[k].get(str(n), 0) + 1
     raw_txn = grep_raw_transactions()
     if raw_txn:
         divergences.append({"input": "grep BEGIN/COMMIT/ROLLBACK outside util::sqlite_transaction", "impl": ", ".join(raw_txn[:5]),
@@ -353,12 +441,19 @@ def tie(ctx):
             "fault_enumeration": {"operations_x_states": sum(1 for c in cases if c["status"] == "ok"),
                                   "fault_positions_total": len(exps),
                                   "positions_per_op_family": {"%s %s" % (f, o): n for (o, f), n in sorted(op_positions.items())}},
+            "prior_state_shapes": state_shapes,
+            "writing_statements_per_call(op -> {number of writes: calls})": writes_per_call,
+            "calls_with_3+_writes": sum(v for d in writes_per_call.values() for n, v in d.items() if int(n) >= 3),
             "fault_verdicts": verdict_hist, "lean_vs_observed": agree,
             "observed_shapes(non-read kinds)": shape_hist,
             "lean_shapes": {s: ("atomic" if lean[s]["atomic"] else "nonatomic") for s in shape_set},
+            "skeletons(op -> observed skeleton: calls)": skel_hist,
+            "model_skeletons(op -> allowed by the concrete statement program)": {"%s %s" % k: v for k, v in allowed.items() if v},
+            "operations_without_concrete_program": sorted(unmodelled),
         },
         "divergences": divergences[:20],
         "violations": vout,
+        "self_test": SELF_TEST,
         "exhaustive": True,
     }
 
